@@ -124,4 +124,54 @@ def TObs.usedState (o : TObs) (r : TReq) : Prop :=
 def TObs.usedRoot (o : TObs) (r : TReq) : Prop :=
   ∀ u, o.used = some u → ∀ s, u.root = some s → s = r.schema
 
+/-! ### `_pickle_memoized` and the absence of address reuse
+
+The model sends, for an object with identity token `t`, the pickle *of that object*: a
+token denotes one object for ever.  The code obtains the bytes of a reflection cache /
+database config / system config from `_pickle_memoized(obj)`.  That is the pickle of `obj`
+as long as a memo entry can never be hit by a *different* object — true for
+`functools.lru_cache`, which holds a strong reference to its keys (a memoized object
+cannot be freed, so nothing else can get its address, while the entry lives), false for
+any memo keyed by `id(obj)`.  `memo t` below is "the object whose pickle the memo returns
+when asked for `t`"; every theorem of Props/C17.lean is about `memo = id`
+(`MemoFaithful`), and `stepCompileMemo` shows what happens otherwise.  The harness tests
+the assumption on the real code with its "churn" stream (objects are freed, addresses are
+reused, the oracle compares values). -/
+
+/-- the memo returns, for every object, the pickle of that very object -/
+def MemoFaithful (memo : Tok → Tok) : Prop := ∀ t, memo t = t
+
+/-- what is put on the wire when the three memoized parts go through `memo` -/
+def Parts.viaMemo (memo : Tok → Tok) (p : Parts) : Parts :=
+  { p with refl := p.refl.map memo, dbcfg := p.dbcfg.map memo, sys := p.sys.map memo }
+
+/-- `stepCompile` with an explicit memo: the worker receives `viaMemo`, the callback
+    records the objects themselves (`to_update` holds the objects, not the bytes) -/
+def stepCompileMemo (memo : Tok → Tok) (env : Env) (st : State) (r : CReq) : State × CObs :=
+  let ws := st r.w
+  let p := preargs ws.bel r
+  let cb := !p.isEmpty
+  match wsync env ws.act r.db (p.viaMemo memo) with
+  | (a', none) =>
+    (upd st r.w ⟨ws.bel.forget, a'⟩, ⟨p, cb, .syncFail, none⟩)
+  | (a', some d) =>
+    let used : Used := ⟨d.schema, a'.glob, d.refl, d.dbcfg, a'.sys⟩
+    let aLast : Option Tok := match r.out with
+      | .ok | .resultUnpicklable => some r.ns
+      | .okNoState => none
+      | .raise | .statePickleFail => a'.last
+    let a'' := { a' with last := aLast }
+    match r.out with
+    | .resultUnpicklable =>
+      (upd st r.w ⟨ws.bel.forget, a''⟩, ⟨p, cb, .serErr, some used⟩)
+    | out =>
+      match withAck ws.bel r.db p with
+      | none => (upd st r.w ⟨ws.bel.forget, a''⟩, ⟨p, cb, .cbAssert, some used⟩)
+      | some b' =>
+        match out with
+        | .ok => (upd st r.w ⟨{ b' with last := some r.ns }, a''⟩, ⟨p, cb, .ok, some used⟩)
+        | .okNoState => (upd st r.w ⟨{ b' with last := none }, a''⟩, ⟨p, cb, .ok, some used⟩)
+        | .raise => (upd st r.w ⟨b'.forget, a''⟩, ⟨p, cb, .compErr, some used⟩)
+        | _ => (upd st r.w ⟨b'.forget, a''⟩, ⟨p, cb, .statePickleErr, some used⟩)
+
 end EdbVerif.Sync
